@@ -583,7 +583,7 @@ class Layout(object):
 
     def __init__(self, style='spaced', drop_semi=0.0, comments=0.0, comments_at_asi=False,
                  comments_before_regex=False, unicode_terms=False, unicode_spaces=True,
-                 unicode_space_before_regex=False):
+                 unicode_space_before_regex=False, blank_lines=0.3, comment_lines=0.0):
         self.__dict__.update(locals())
         del self.__dict__['self']
 
@@ -667,6 +667,12 @@ def render(rng, toks, layout=None, stats=None):
                 if lo.style == 'wild' and rng.random() < 0.5:
                     s += rng.choice(spaces)
                 s += rng.choice(terms)
+                # blank lines and whole-line comments after the terminator ASI relies on (each ends with a terminator, so the
+                # token that follows is still directly preceded by one)
+                while lo.style == 'wild' and lo.blank_lines and rng.random() < lo.blank_lines:
+                    s += (rng.choice(spaces) if rng.random() < 0.3 else '') + rng.choice(terms)
+                while lo.comment_lines and rng.random() < lo.comment_lines:
+                    s += rng.choice(['// c', '//', '/* c */', '// ;']) + rng.choice(terms)
                 if lo.style == 'wild' and rng.random() < 0.3:
                     s += rng.choice(spaces)
                 if lo.comments_at_asi and lo.comments and rng.random() < lo.comments:
